@@ -152,11 +152,12 @@ static void check_node(struct vnode* v) {
 
 /* ---------- construction ---------- */
 
+static int64_t map_key_base = INT64_MIN;   /* fixed grids: first key of a map leaf (INT64_MIN: random) */
 static int leaf_histories;      /* generated cases only: the fixed grids need exact lengths */
 
 static int add_leaf(vh_rng* r, int kind, int n, var* keep) {
   struct vnode* v = &V[nv];
-  memset(v, 0, offsetof(struct vnode, ref));
+  memset(v, 0, offsetof(struct vnode, nref));
   v->kind = kind; v->ordered = 1; v->has_len = 1; v->has_get = 1; v->depth = 0;
   switch (kind) {
     case V_ARRAY: v->obj = new(Array, Int); break;
@@ -168,8 +169,11 @@ static int add_leaf(vh_rng* r, int kind, int n, var* keep) {
   }
   keep[nv] = v->obj;
   v->nref = n;
+  /* map keys: an arithmetic progression with a varying start and stride, so that every slot of the table
+     (the first and the last one in particular) gets to be the only / first / last occupied one */
+  int64_t kbase = map_key_base != INT64_MIN ? map_key_base : vh_range(r, -20, 20), kstep = map_key_base != INT64_MIN ? 1 : (int64_t[]){ 1, 5, 7, 11 }[vh_below(r, 4)];
   for (int i = 0; i < n; i++) {
-    int64_t x = (kind == V_TABLE || kind == V_TREE) ? (int64_t)i * 7 - 20 : vh_range(r, -9, 30);
+    int64_t x = (kind == V_TABLE || kind == V_TREE) ? kbase + (int64_t)i * kstep : vh_range(r, -9, 30);
     v->ref[i].arity = 0; v->ref[i].v[0] = x;
     if (kind == V_TUPLE) { push(v->obj, new(Int, $I(x))); }
     else if (kind == V_TABLE || kind == V_TREE) { set(v->obj, $I(x), $I(i)); }
@@ -207,7 +211,7 @@ static int add_leaf(vh_rng* r, int kind, int n, var* keep) {
 
 static int add_range(vh_rng* r, var* keep) {
   struct vnode* v = &V[nv];
-  memset(v, 0, offsetof(struct vnode, ref));
+  memset(v, 0, offsetof(struct vnode, nref));
   v->kind = V_RANGE; v->ordered = 1; v->has_len = 1; v->has_get = 1;
   int nargs = 1 + (int)vh_below(r, 3);
   int64_t a = vh_range(r, -50, 50), b = vh_range(r, -50, 50), c = vh_range(r, -7, 7);
@@ -239,7 +243,7 @@ static int normalise_slice_arg(int part, int n, int given, int64_t a, int* ambig
 static int add_slice(vh_rng* r, int c, var* keep) {
   struct vnode* v = &V[nv];
   struct vnode* ch = &V[c];
-  memset(v, 0, offsetof(struct vnode, ref));
+  memset(v, 0, offsetof(struct vnode, nref));
   v->kind = V_SLICE; v->ordered = 1; v->has_len = 1; v->has_get = ch->has_get; v->nchild = 1; v->child[0] = c; v->depth = ch->depth + 1;
   v->stateful = ch->stateful | ((uint32_t)1 << nv);      /* a Slice keeps its position in its own Range */
   int n = ch->nref;
@@ -290,7 +294,7 @@ static int add_slice(vh_rng* r, int c, var* keep) {
 static int add_zip(vh_rng* r, const int* cs, int k, int enumerate_, var* keep) {
   struct vnode* v = &V[nv];
   (void)r;
-  memset(v, 0, offsetof(struct vnode, ref));
+  memset(v, 0, offsetof(struct vnode, nref));
   v->kind = enumerate_ ? V_ENUM : V_ZIP; v->ordered = 1; v->has_len = 1; v->has_get = 1; v->nchild = k;
   size_t o = (size_t)snprintf(v->desc, sizeof v->desc, "%s(", enumerate_ ? "enumerate" : "zip");
   var args = new(Tuple);
@@ -332,7 +336,7 @@ static int add_zip(vh_rng* r, const int* cs, int k, int enumerate_, var* keep) {
 static int add_filter_or_map(int c, int is_map, var* keep) {
   struct vnode* v = &V[nv];
   struct vnode* ch = &V[c];
-  memset(v, 0, offsetof(struct vnode, ref));
+  memset(v, 0, offsetof(struct vnode, nref));
   v->kind = is_map ? V_MAP : V_FILTER; v->ordered = ch->ordered; v->nchild = 1; v->child[0] = c; v->depth = ch->depth + 1;
   v->has_len = is_map ? ch->has_len : 0;
   v->has_get = is_map ? ch->has_get : 0;
@@ -437,7 +441,7 @@ static void __attribute__((noinline)) fixed(void) {
       if (V[c].ordered) {
         /* reverse(x) == slice(x, _, _, -1) */
         struct vnode* v = &V[nv];
-        memset(v, 0, offsetof(struct vnode, ref));
+        memset(v, 0, offsetof(struct vnode, nref));
         v->kind = V_SLICE; v->ordered = 1; v->has_len = 1; v->has_get = V[c].has_get; v->depth = 1;
         var args = new(Tuple); push(args, V[c].obj); push(args, _); push(args, _); push(args, new(Int, $I(-1)));
         v->obj = new_with(Slice, args); keep[nv] = v->obj;
@@ -450,11 +454,35 @@ static void __attribute__((noinline)) fixed(void) {
       }
     }
   }
+  /* maps of 1..3 bindings with every possible first key 0..24: each slot of the smallest tables is, in turn,
+     the only occupied one, the first one and the last one */
+  for (int kind = V_TABLE; kind <= V_TREE; kind++) {
+    for (int n = 1; n <= 3; n++) {
+      for (int64_t base = 0; base < 25; base++) {
+        nv = 0; memset(keep, 0, sizeof keep);
+        map_key_base = base;
+        int c = add_leaf(&r, kind, n, keep);
+        map_key_base = INT64_MIN;
+        check_node(&V[c]);
+        struct vnode* v = &V[nv];
+        memset(v, 0, offsetof(struct vnode, nref));
+        v->kind = V_SLICE; v->ordered = 1; v->has_len = 1; v->has_get = 0; v->depth = 1;
+        var args = new(Tuple); push(args, V[c].obj); push(args, _); push(args, _); push(args, new(Int, $I(-1)));
+        v->obj = new_with(Slice, args); keep[nv] = v->obj;
+        snprintf(v->desc, sizeof v->desc, "reverse(%s first key %" PRId64 ")", V[c].desc, base);
+        v->nref = n;
+        for (int i = 0; i < n; i++) { v->ref[i] = V[c].ref[n - 1 - i]; }
+        nv++;
+        check_node(v);
+        vh_count("small_map_grid_points");
+      }
+    }
+  }
   /* Range grid: start, stop in [-6,6], step in [-3,3] */
   for (int64_t a = -6; a <= 6; a++) { for (int64_t b = -6; b <= 6; b++) { for (int64_t c = -3; c <= 3; c++) {
     nv = 0;
     struct vnode* v = &V[nv];
-    memset(v, 0, offsetof(struct vnode, ref));
+    memset(v, 0, offsetof(struct vnode, nref));
     v->kind = V_RANGE; v->ordered = 1; v->has_len = 1; v->has_get = 1;
     v->obj = new(Range, $I(a), $I(b), $I(c)); keep[0] = v->obj;
     snprintf(v->desc, sizeof v->desc, "range(%" PRId64 ",%" PRId64 ",%" PRId64 ")", a, b, c);
@@ -470,13 +498,13 @@ static void __attribute__((noinline)) fixed(void) {
       int leaf;
       if (kind == 3) {
         struct vnode* v = &V[nv];
-        memset(v, 0, offsetof(struct vnode, ref));
+        memset(v, 0, offsetof(struct vnode, nref));
         v->kind = V_RANGE; v->ordered = 1; v->has_len = 1; v->has_get = 1;
         v->obj = new(Range, $I(n)); keep[0] = v->obj; snprintf(v->desc, sizeof v->desc, "range(%d)", n);
         v->nref = range_ref(0, n, 1, v->ref, MAXREF); leaf = nv++;
       } else { leaf = add_leaf(&r, kind, n, keep); }
       struct vnode* v = &V[nv];
-      memset(v, 0, offsetof(struct vnode, ref));
+      memset(v, 0, offsetof(struct vnode, nref));
       v->kind = V_SLICE; v->ordered = 1; v->has_len = 1; v->has_get = 1; v->depth = 1;
       var args = new(Tuple); push(args, V[leaf].obj); push(args, new(Int, $I(a))); push(args, new(Int, $I(b))); push(args, new(Int, $I(c)));
       v->obj = new_with(Slice, args); keep[nv] = v->obj;
